@@ -79,7 +79,7 @@ REQUIRED = {
     'gets-full': 30, 'sum-full': 20, 'sum-full-rejects': 20,
     'tt-dense-agree': 30, 'diff': 60, 'inverse': 30, 'linear': 30,
     'sin-inverse': 30, 'sin-linear': 30, 'general': 30, 'general-get': 30,
-    'general-callable': 30, 'shape': 100}
+    'general-callable': 30, 'shape': 100, 'get-far-integer-box': 100}
 REQUIRED_EVENTS = {'default-box': 5}      # a = b = None was exercised
 ASSUMPTIONS = [
     'numpy.polynomial (polyval, chebval, polyint, chebint, polyder, chebder) '
@@ -109,8 +109,13 @@ def gen_cases(seed, tier):
     seeds = rng.integers(1 << 62, size=n).tolist()
     fams = rng.integers(len(FAMS), size=n).tolist()
     big = tier != 'quick'
-    return [{'seed': s, 'fam': FAMS[f], 'big': big}
+    out = [{'seed': s, 'fam': FAMS[f], 'big': big}
         for s, f in zip(seeds, fams)]
+    nf = 240 if tier == 'quick' else 6000
+    step = max(1, len(out) // nf)
+    for j, s in enumerate(rng.integers(1 << 62, size=nf).tolist()):
+        out.insert(j * step, {'seed': s, 'fam': 'farbox', 'big': big})
+    return out
 
 
 _SAMPLED = set()
@@ -486,7 +491,83 @@ def run_case(case, ctx):
     import teneva
     rng = np.random.default_rng(case['seed'])
     {'tt': case_tt, 'dense': case_dense, 'diff': case_diff, 'lin': case_lin,
-        'general': case_general}[case['fam']](case, ctx, teneva, rng)
+        'general': case_general, 'farbox': case_farbox}[case['fam']](
+        case, ctx, teneva, rng)
+
+
+def case_farbox(case, ctx, teneva, rng):
+    """Boxes far from the origin whose bounds are integers (time stamps,
+    plate coordinates): a, b, a + b and b - a are exact in double, so the
+    map to [-1, 1] of an exactly given point carries only ~2 ulp of error and
+    'up to rounding' does not involve kappa = |a + b| / (b - a).  Reference:
+    exact rational arithmetic on the same doubles."""
+    from fractions import Fraction as Fr
+    d = int(rng.integers(1, 4))
+    n = [int(rng.integers(2, 10)) for _ in range(d)]
+    r = gen.rand_ranks(rng, d, 2)
+    A = gen.cores(rng, n, r, 'int' if rng.random() < 0.3 else 'normal')
+    m = int(rng.integers(1, 5))
+    a, b = [], []
+    for k in range(d):
+        w = int(rng.integers(1, 1001))
+        lo = int(rng.integers(1 << 20, 1 << 40)) * int(rng.choice([-1, 1]))
+        a.append(float(lo))
+        b.append(float(lo + w))
+    same = rng.random() < 0.4
+    if same:
+        a, b = [a[0]] * d, [b[0]] * d
+    X = np.empty((m, d))
+    for k in range(d):
+        X[:, k] = np.clip(a[k] + rng.random(m) * (b[k] - a[k]), a[k], b[k])
+    if rng.random() < 0.3:
+        X[0] = [a[k] if rng.random() < 0.5 else b[k] for k in range(d)]
+    # exact reference
+    want, absb = [], []
+    for x in X:
+        v = [[Fr(1)]]
+        va = np.ones((1, 1), dtype=LD)
+        for k in range(d):
+            t = (Fr(float(x[k])) - (Fr(a[k]) + Fr(b[k])) / 2) * 2 / \
+                (Fr(b[k]) - Fr(a[k]))
+            T = [Fr(1), t]
+            for j in range(2, n[k]):
+                T.append(2 * t * T[-1] - T[-2])
+            G = A[k]
+            M = [[sum(Fr(float(G[p, j, q])) * T[j] for j in range(n[k]))
+                for q in range(G.shape[2])] for p in range(G.shape[0])]
+            v = [[sum(v[0][p] * M[p][q] for p in range(len(M)))
+                for q in range(len(M[0]))]]
+            va = va @ np.sum(np.abs(np.asarray(G, dtype=LD)), axis=1)
+        want.append(v[0][0])
+        absb.append(float(va[0, 0]))
+    aa = a[0] if same and rng.random() < 0.5 else (list(a) if rng.random() < .5
+        else np.array(a))
+    bb = b[0] if not isinstance(aa, (list, np.ndarray)) else (list(b)
+        if isinstance(aa, list) else np.array(b))
+    snap = sanit.Snapshot([A, X])
+    got = np.asarray(teneva.func_get(X.copy(), A, aa, bb), dtype=float)
+    got1 = float(teneva.func_get(X[0].copy(), A, aa, bb))
+    advisory_unchanged(ctx, snap.diff() is None)
+    nn = max(n)
+    for i in range(m):
+        # 2 ulp on t, amplified by |T_j'| <= j^2, plus recurrence and
+        # contraction: S (4 n^2 + n + r) d eps relative to prod_k sum_j |A_k|
+        tol = S * (4 * nn * nn + nn + 2) * d * EPS * absb[i]
+        err = abs(float(Fr(float(got[i])) - want[i]))
+        if tol > 0:
+            ctx.margins['get-far-integer-box'] = max(ctx.margins.get(
+                'get-far-integer-box', 0.), err / tol)
+        ctx.check('get-far-integer-box', err <= tol, lambda: 'func_get on an '
+            f'integer box far from the origin a = {a}, b = {b}: value at the '
+            f'exactly given point {X[i].tolist()} is off by {err:.3e} '
+            f'(tolerance {tol:.3e}, sum|coeff| bound {absb[i]:.3e}): not '
+            '"up to rounding" of exactly representable inputs')
+    err = abs(float(Fr(got1) - want[0]))
+    tol = S * (4 * nn * nn + nn + 2) * d * EPS * absb[0]
+    ctx.check('get-far-integer-box', err <= tol, lambda: 'func_get (single '
+        f'point) on a far integer box: off by {err:.3e} (tolerance {tol:.3e})')
+    if max(n) >= 3:
+        ctx.nontrivial(['farbox', d, tuple(n), same])
 
 
 def advisory_unchanged(ctx, same):
